@@ -575,10 +575,10 @@ example : ∀ s' out b, UHS.take Eub 60 30 (UHS.St.empty Gu) [] = some (s', out,
     it, only adds entries to the `succ` tables (`UHS.Stable`) and returns the entry `succ[nt][program]`
     of the new state.  Any grammar, priority type, threshold; with a non-empty `deleted` set under
     `UHS.NoReent` (carried by `NInv.del_ok`). -/
-theorem C02_HS_U_query_nodup (E : UHS.Env U π) (hk : E.kway = true) (n : Nat) (s s' : UHS.St U π) (nt : UHS.UNT U)
-    (p r : Option Prog) (hs : NInv E s) (h : UHS.query E n s nt p = some (s', r)) :
+theorem C02_HS_U_query_nodup (E : UHS.Env U π) (H : GHyp E) (n : Nat) (s s' : UHS.St U π) (nt : UHS.UNT U)
+    (p r : Option Prog) (hs : NInv E s) (hss : UHS.SInv E s) (h : UHS.query E n s nt p = some (s', r)) :
     NInv E s' ∧ Stable s s' ∧ ∀ q, r = some q → AList.lookup p (s'.succOf nt) = some q :=
-  big_nodup E hk (big_of_query E h) hs trivial
+  big_nodup E H (big_of_query E h) hss trivial hs trivial
 
 /-- **NO DUPLICATES** (every prefix, every fuel): the sequence yielded by heap search / bucket search
     on an UNAMBIGUOUS grammar has no repeated program.  `hunamb`: the specification `U.unambiguousOn`
